@@ -65,8 +65,11 @@ def case(ctx, i, tier):
         if not asw:
             allocs = [[round(x * 10) for x in a] for a in allocs]
         sp_ = DiscretePortfolio(contracts, allocs, as_weights=asw)
-        valid = lambda: rng.randrange(len(allocs))
-        denote = lambda a: allocs[a]
+        # (an index may arrive as a Python int or as a numpy integer - what np.argmax / a policy network returns)
+        itype = rng.choice([int, int, np.int64, np.int32])
+        ctx.cat("index-type:" + itype.__name__)
+        valid = lambda: itype(rng.randrange(len(allocs)))
+        denote = lambda a: allocs[int(a)]
         bads = [("index-1", -1), ("index-n", len(allocs)), ("index-1.5", 1.5), ("np.float64", np.float64(1.0)), ("none", None),
                 ("string", "x"), ("array", np.array([0, 1])), ("nan", float("nan")), ("index-big", 10 ** 6)]
     else:
